@@ -21,6 +21,8 @@ CONTRACT_FNS = {"clamp": "min <= max and neither is NaN", "rem_euclid": "non-zer
                 "ilog2": "non-zero argument", "ilog10": "non-zero argument", "ilog": "non-zero argument", "rchunks": "non-zero chunk size",
                 "rchunks_exact": "non-zero chunk size", "chunks_mut": "non-zero chunk size", "chunks_exact_mut": "non-zero chunk size", "from_digit": "radix <= 36",
                 "to_digit": "radix <= 36", "array_chunks": "non-zero chunk size", "next_power_of_two": "no overflow", "isqrt": "non-negative argument"}
+# String / str methods that panic when an index is not on a character boundary (or out of range)
+STR_BOUNDARY_FNS = ("truncate", "split_off", "insert", "insert_str", "remove", "drain", "replace_range", "split_at", "split_at_mut")
 ALLOC_LIMIT = 1 << 26   # 64 Mi elements: above this an unguarded tainted size is "out of proportion to the file"
 LOOP_LIMIT = 1 << 16
 
@@ -68,6 +70,8 @@ def sites_of(b):
                 out.append(Site(b, bi, "alloc", seg, t["span"], t.get("mac")))
             elif seg in CONTRACT_FNS and not t.get("resolved_local") and n.startswith(("core::", "std::", "alloc::")):
                 out.append(Site(b, bi, "contract", seg, t["span"], t.get("mac")))
+            elif seg in STR_BOUNDARY_FNS and ("string::String" in n or "str::<impl str>" in n or "<impl str>" in n):
+                out.append(Site(b, bi, "contract", "str-" + seg, t["span"], t.get("mac")))
             elif seg == "take" and "Repeat" in (t.get("callee_full", "") + t.get("resolved_full", "")):
                 out.append(Site(b, bi, "alloc", "repeat-take", t["span"], t.get("mac")))
     # ordinal keys
@@ -157,6 +161,14 @@ class Census:
                     # a - b underflows when b > a
                     if c.bound == 0:
                         return self._auto(s, "subtracting zero")
+                    if locs[0] is not None and locs[1] is not None and not (vals[0].g or vals[1].g):
+                        # `a - b` with two variables: what keeps it from underflowing is a test that RELATES a and b (or each of them with
+                        # a bound); a test of one of them alone (a sign test, the `Some` of an earlier checked_sub) says nothing about b <= a
+                        if self._related(b, s.bb, locs[0], locs[1]):
+                            return self._auto(s, "the two operands are compared with each other before the subtraction (dominating guard)")
+                        if self.G(b, s.bb, locs[0], vals[0]) and self.G(b, s.bb, locs[1], vals[1]):
+                            return self._auto(s, "both operands compared before the subtraction (dominating guards)")
+                        return self._open(s, "Sub of %s and %s can underflow (no dominating test relates the two)" % (a, c), tainted)
                     if any(self.G(b, s.bb, l, v) for l, v in zip(locs, vals) if l is not None or v.g):
                         return self._auto(s, "operands compared before the subtraction (dominating guard)")
                     return self._open(s, "Sub of %s and %s can underflow" % (a, c), tainted)
@@ -314,6 +326,11 @@ class Census:
             if all(l is None or T.guarded_exact(b, s.bb, a) or self._from_search(b, l) for l, a in zip(ls, t["args"][1:])) and any(l is not None for l in ls):
                 return self._auto(s, "arguments compared / searched before the call")
             return self._open(s, "%s(%s) may panic" % (s.detail, ", ".join(map(str, vs))), any(v.taint for v in vs))
+        if s.kind == "contract" and s.detail.startswith("str-"):
+            args = t["args"][1:]
+            if args and args[0][0] == "const" and args[0][1].get("int") == 0:
+                return self._auto(s, "index 0 is a character boundary")
+            return self._open(s, "String::%s panics unless the index is on a character boundary within the text (the text is arbitrary file data)" % s.detail[4:], False)
         if s.kind == "contract":
             args = t["args"][1:]
             vs = [T.operand(b, a) for a in args]
@@ -356,6 +373,35 @@ class Census:
         return self._open(s, "unclassified", False)
 
     # ---- helpers ---------------------------------------------------------------
+    def _related(self, b, site_bb, la, lb):
+        """a deciding comparison (or a checked_sub / get of a range) in front of the site has one side computed from la's ancestors and the other from lb's"""
+        T = self.taint
+        cfg = T.cfg(b)
+        def anc(z):
+            # `v.len()` taken twice is the same quantity; but `self.first_char` and `self.values.len()` only share `self`: the reference to the
+            # whole struct relates nothing
+            out = T.ancestors(b, z, through_access=True) | {z}
+            return {x for x in out if not (isinstance(x, int) and 1 <= x <= b["argc"] and b["locals"][x]["s"].startswith("&") and "[" not in b["locals"][x]["s"])}
+        aa, ab = anc(la), anc(lb)
+        for bi, bb in enumerate(b["blocks"]):
+            if not cfg.dominates(bi, site_bb) or bi == site_bb:
+                continue
+            t = bb["term"]
+            pairs = []
+            if t["k"] == "switch":
+                for st in bb["stmts"]:
+                    if st[0] == "assign" and st[2][0] == "binop" and st[2][1] in ("Lt", "Le", "Gt", "Ge", "Eq", "Ne") and F.op_local(t["discr"]) == st[1][0]:
+                        pairs.append((F.op_local(st[2][2]), F.op_local(st[2][3])))
+            if t["k"] == "call" and last_seg(F.callee_name(t)) in ("checked_sub", "cmp", "partial_cmp", "min", "max") and len(t["args"]) == 2:
+                pairs.append((F.op_local(t["args"][0]), F.op_local(t["args"][1])))
+            for x, y in pairs:
+                if x is None or y is None:
+                    continue
+                ax, ay = anc(x), anc(y)
+                if ((ax & aa and ay & ab) or (ax & ab and ay & aa)) and T.separates(b, bi, site_bb):
+                    return True
+        return False
+
     def G(self, b, bb, l, v=None):
         """the local is compared before the site (here), or every tainted contribution was compared in the callers"""
         if v is not None and v.g:
